@@ -399,6 +399,28 @@ def shrink_engine(case, fails):
 NUM_RE = re.compile(r"(?<![\w.+-])[-+]?\d+\.\d+(?![\w.])")
 
 
+ANY_NUM_RE = re.compile(r"(?<![\w.])[-+]?(?:\d+\.?\d*|\.\d+)(?:[eE][-+]?\d+)?(?![\w.])")
+
+
+def decimal_exact(text: str, d: int) -> bool:
+    """every numeric literal prints the same at d decimals whether read exactly or through the nearest double"""
+    from decimal import ROUND_HALF_EVEN, Decimal, InvalidOperation
+    q = Decimal(1).scaleb(-d)
+    for line in text.split("\n"):
+        body = line.split("#")[0]
+        if ":" not in body or body.strip().split(":")[0] in ("description", "Engine", "InputVariable", "OutputVariable", "RuleBlock"):
+            continue
+        for m in ANY_NUM_RE.findall(body.split(":", 1)[1]):
+            try:
+                exact = Decimal(m).quantize(q, rounding=ROUND_HALF_EVEN)
+                via_double = Decimal(float(m)).quantize(q, rounding=ROUND_HALF_EVEN)
+            except (InvalidOperation, ValueError):
+                continue
+            if exact != via_double:
+                return False
+    return True
+
+
 def mutate_text(rng, text: str, d: int):
     """returns (mutated text, label); the labels starting with `bad-` are meant to be rejected"""
     lines = text.split("\n")
@@ -529,7 +551,7 @@ def mutate_text(rng, text: str, d: int):
 
 def engine_cases(ctx):
     rng = ctx.rng
-    n = ctx.scale(140, 2500)
+    n = ctx.scale(330, 3000)
     classes = list(G.term_classes())
     for i in range(n):
         d = 1 + (i % 9)
@@ -550,7 +572,7 @@ def engine_cases(ctx):
 def component_cases(ctx):
     rng = ctx.rng
     classes = list(G.term_classes())
-    for rnd in range(ctx.scale(3, 40)):
+    for rnd in range(ctx.scale(6, 40)):
         for d in range(1, 10):
             for cn in classes:
                 mode = rng.choice(["grid", "float"])
@@ -633,7 +655,7 @@ def correspond(ctx):
         ask(["fll-export", d, tol, me], ("export", case, t1))
         ask(["fll-import", C.hexs(t1)], ("import", case, real_import))
         ask(["fll-canon", d, tol, me], ("canon", case, real_import))
-        if len(texts) < ctx.scale(120, 1500):
+        if len(texts) < ctx.scale(250, 1500):
             texts.append((d, t1))
     ctx.notes["classes_covered"] = len(seen_classes)
     fm = fl.settings.factory_manager
@@ -665,6 +687,12 @@ def correspond(ctx):
             st.case(("text", d, text), True, sample=None)
             if real[0] == "ok" and any(G.fragile_height(float(m), d) for m in NUM_RE.findall(text)):
                 st.skipped_fragile += 1
+                continue
+            if real[0] == "ok" and not decimal_exact(text, d):
+                # a literal whose nearest double prints differently from the exact decimal (CPython's float() is trusted,
+                # the model's numbers are exact decimals): compared on the implementation only
+                st.skipped_fragile += 1
+                st.count("text-double-rounding(model comparison skipped)")
                 continue
             ask(["fll-cycle", d, tol, C.hexs(text)], ("cycle", case, real))
     # ---- single components
